@@ -135,7 +135,7 @@ func GenMObj(ctrl, floats bool) *rapid.Generator[MObj] {
 
 // ---- artifacts ---------------------------------------------------------------------------------
 
-var hexDigest = rapid.StringMatching(`[0-9a-f]{8,64}`)
+var hexDigest = rapid.StringMatching(`[0-9a-fA-F]{8,64}`)
 
 func GenArtifacts(ctrl bool) *rapid.Generator[MArtifacts] {
 	return rapid.Custom(func(t *rapid.T) MArtifacts {
